@@ -182,6 +182,18 @@ func (c *Ctx) CallersOf(fn *ssa.Function) []ssa.CallInstruction {
 
 // Reachable returns the set of module functions reachable from roots (including closures
 // created in reached functions), sorted by name.
+// liveFunc: fn is among the analysed module functions (a function literal folded into its caller by the
+// normalisations and dropped from that set no longer exists as a function of its own).
+func (c *Ctx) liveFunc(fn *ssa.Function) bool {
+	if c.liveSet == nil {
+		c.liveSet = map[*ssa.Function]bool{}
+		for _, f := range c.ModFuncs {
+			c.liveSet[f] = true
+		}
+	}
+	return c.liveSet[fn]
+}
+
 func (c *Ctx) Reachable(roots ...*ssa.Function) []*ssa.Function {
 	seen := map[*ssa.Function]bool{}
 	var work []*ssa.Function
@@ -199,7 +211,9 @@ func (c *Ctx) Reachable(roots ...*ssa.Function) []*ssa.Function {
 		f := work[len(work)-1]
 		work = work[:len(work)-1]
 		for _, af := range f.AnonFuncs {
-			push(af)
+			if c.liveFunc(af) {
+				push(af)
+			}
 		}
 		for _, b := range f.Blocks {
 			for _, ins := range b.Instrs {
